@@ -208,6 +208,11 @@ func Render(f *File, st Style) string {
 			}
 			w("}", false)
 		case DefMessage:
+			if strings.HasPrefix(d.Name, "\x00RAW:") {
+				// raw tail injected by a lexical-error mutation
+				sb.WriteString("message " + d.Name[5:])
+				continue
+			}
 			w("message", true)
 			w(d.Name, false)
 			w("{", false)
